@@ -28,7 +28,7 @@ func atomMatches(a Atom, i, o Obj) bool {
 	case "key":
 		return o.ResourceName() == i.Ref
 	case "selects":
-		return subset(o.Sel, i.Labels)
+		return i.LabelsNil || subset(o.Sel, i.Labels)
 	case "selectsNE":
 		return len(o.Sel) > 0 && subset(o.Sel, i.Labels)
 	case "label":
